@@ -409,6 +409,12 @@ func replayKnown() (regressions int) {
 	return
 }
 
+var makers = map[string]func(arg string) (interface{}, error){}
+
+// RegisterMaker lets `./check --mkcase <Cxx> <check> <arg>` build a replay case
+// from a short argument (e.g. an SQL text) on the current tree.
+func RegisterMaker(check string, f func(arg string) (interface{}, error)) { makers[check] = f }
+
 // Main is called from each check package's TestMain.
 func Main(m *testing.M, property string) {
 	col.Property = property
@@ -419,6 +425,23 @@ func Main(m *testing.M, property string) {
 	loadKnown(property)
 	if f := os.Getenv("VERIF_REPLAY_FILE"); f != "" {
 		os.Exit(runReplayFile(f))
+	}
+	if ck := os.Getenv("VERIF_MKCASE_CHECK"); ck != "" {
+		mk, ok := makers[ck]
+		if !ok {
+			fmt.Fprintln(os.Stderr, "no case maker for", ck)
+			os.Exit(3)
+		}
+		v, err := mk(os.Getenv("VERIF_MKCASE_ARG"))
+		if err != nil {
+			fmt.Fprintln(os.Stderr, err)
+			os.Exit(3)
+		}
+		raw, _ := json.Marshal(v)
+		rf := replayFile{Property: property, Check: ck, Message: "made by --mkcase", Case: raw}
+		b, _ := json.MarshalIndent(rf, "", " ")
+		os.WriteFile(os.Getenv("VERIF_MKCASE_OUT"), b, 0o644)
+		os.Exit(0)
 	}
 	reg := replayKnown()
 	code := m.Run()
